@@ -380,6 +380,10 @@ def run_http(j):
         else:
             site = X.http_site(path, _latin(G.resp()), True, None,
                                dict(data=_latin(j['data']), close=j.get('close', True), cuts=j.get('cuts'), fail=fail))
+        if '--http-proxy' in (j.get('argv') or ()):
+            # two consecutive requests for the same host (/ then /p3), the hostile URL last
+            site['urls'][0]['links'] = [dict(to=3)]
+            site['urls'][2]['links'] = [dict(to=2)]
         db = os.path.join(d, 't.db')
         from wpull.url import URLInfo
         target = URLInfo.parse('http://b.test' + path).url
